@@ -602,9 +602,13 @@ Definition run_policy_case (toks : list (list byte)) : list byte :=
   | _ => [98; 97; 100; 99; 97; 115; 101] ++ NL
   end.
 
-(** One allocation case: "al <fa|fq> <cap> <inp hex> <next|set> <warm>": for every call of
-    next() / read_record_set() (one reused set) the prediction of Model/Alloc.v whether the call
-    may allocate (some high-water mark rises or the policy is consulted): "al pred=0100..." *)
+(** One allocation case: "al <fa|fq> <cap> <inp hex> <mode> <warm>" with mode
+      next    every call is next()
+      set     every call is read_record_set() into one reused set
+      x<n>    every call is read_record_set_exact(.., n) into one reused set
+      m<k>    k calls of next(), then read_record_set() into one reused set
+    For every call the prediction of Model/Alloc.v whether the call may allocate (some
+    high-water mark rises or the policy is consulted): "al pred=0100..." *)
 Definition run_alloc_case (toks : list (list byte)) : list byte :=
   match toks with
   | _ :: fmt :: capt :: inpt :: modet :: _ =>
@@ -614,15 +618,36 @@ Definition run_alloc_case (toks : list (list byte)) : list byte :=
       let ffuel := S (S (length inp)) in
       let fuel := 2 * length inp + 16 in
       let n := length (filter (fun c => (c =? GT) || (c =? AT)) inp) + 2 in
-      let is_set := match modet with 115 :: _ => true | _ => false end in
+      let is_fa := match fmt with [102; 97] => true | _ => false end in
       let bits : list bool :=
-        match fmt, is_set with
-        | [102; 97], false => map snd (fa_run_allocs fuel ffuel n (fa_marks_new capacity) (fa_new capacity src pol_std))
-        | [102; 97], true => map snd (fa_set_run_allocs fuel ffuel n None (fa_marks_new capacity) fa_set_marks_new
-                                                        (fa_new capacity src pol_std) fa_set_empty)
-        | _, false => map snd (fq_run_allocs fuel ffuel n (fq_marks_new capacity) (fq_new capacity src pol_std))
-        | _, true => map snd (fq_set_run_allocs fuel ffuel n None (fq_marks_new capacity) fq_set_marks_new
-                                                (fq_new capacity src pol_std) fq_set_empty)
+        match modet with
+        | 115 :: _ =>                                   (* set *)
+            if is_fa then map snd (fa_set_run_allocs fuel ffuel n None (fa_marks_new capacity) fa_set_marks_new
+                                                     (fa_new capacity src pol_std) fa_set_empty)
+            else map snd (fq_set_run_allocs fuel ffuel n None (fq_marks_new capacity) fq_set_marks_new
+                                            (fq_new capacity src pol_std) fq_set_empty)
+        | 120 :: cnt =>                                 (* x<n>: exact-count sets *)
+            if is_fa then map snd (fa_set_run_allocs fuel ffuel n (Some (undec cnt)) (fa_marks_new capacity) fa_set_marks_new
+                                                     (fa_new capacity src pol_std) fa_set_empty)
+            else map snd (fq_set_run_allocs fuel ffuel n (Some (undec cnt)) (fq_marks_new capacity) fq_set_marks_new
+                                            (fq_new capacity src pol_std) fq_set_empty)
+        | 109 :: kt =>                                  (* m<k>: k single reads, then sets *)
+            let k := undec kt in
+            if is_fa then
+              let r0 := fa_new capacity src pol_std in
+              map snd (fa_run_allocs fuel ffuel k (fa_marks_new capacity) r0) ++
+              map snd (fa_set_run_allocs fuel ffuel n None (fa_marks_iter fuel ffuel k (fa_marks_new capacity) r0)
+                                         fa_set_marks_new (fa_iter fuel ffuel k r0) fa_set_empty)
+            else
+              let r0 := fq_new capacity src pol_std in
+              map snd (fq_run_allocs fuel ffuel k (fq_marks_new capacity) r0) ++
+              map snd (fq_set_run_allocs fuel ffuel n None
+                                         (match k with 0 => fq_marks_new capacity
+                                          | _ => fq_next_marks (fq_marks_new capacity) (fq_iter fuel ffuel k r0) end)
+                                         fq_set_marks_new (fq_iter fuel ffuel k r0) fq_set_empty)
+        | _ =>                                          (* next *)
+            if is_fa then map snd (fa_run_allocs fuel ffuel n (fa_marks_new capacity) (fa_new capacity src pol_std))
+            else map snd (fq_run_allocs fuel ffuel n (fq_marks_new capacity) (fq_new capacity src pol_std))
         end in
       [97; 108; 32; 112; 114; 101; 100; 61] ++ map (fun b : bool => if b then 49 else 48) bits ++ NL
   | _ => [98; 97; 100; 99; 97; 115; 101] ++ NL
